@@ -158,6 +158,9 @@ class DynCodec:
             return None
         out: Dict[str, str] = {}
         ifs = [s for s in b.inner if s.kind == "IfStmt"]
+        tbl = self._table_dispatch(name, b)
+        if tbl is not None:
+            return tbl
         if not ifs:
             return None
         st = ifs[0]
@@ -180,6 +183,43 @@ class DynCodec:
                 st = st.inner[0]
         has_throw = any(y.kind == "CXXThrowExpr" for y in walk(b))
         return out, has_throw
+
+    def _table_dispatch(self, name: str, b: CNode):
+        """`table.find(type.type)` over a map from tag strings to lambdas that each call one handler: -> (tag -> handler, has_throw)"""
+        finds = [self.member_call(y) for y in walk(b) if y.kind == "CXXMemberCallExpr"]
+        finds = [c for c in finds if c and c[0] in ("find", "at")]
+        if not finds or not any(any(z.kind == "MemberExpr" and z.get("name") == "type" for z in walk(a)) for c in finds for a in c[2]):
+            return None
+        # the table: in this method or in a method it calls (a function-local static, a member initialiser, ...)
+        scopes = [b]
+        for y in walk(b):
+            mc = self.member_call(y) if y.kind == "CXXMemberCallExpr" else None
+            if mc and mc[0] in self.methods:
+                scopes.append(self.body(mc[0]))
+            if y.kind == "CallExpr":
+                for z in walk(y.inner[0] if y.inner else y):
+                    nm = z.get("referencedDecl", {}).get("name") if z.kind == "DeclRefExpr" else None
+                    if nm in self.methods:
+                        scopes.append(self.body(nm))
+        out: Dict[str, str] = {}
+        for sc in scopes:
+            if sc is None:
+                continue
+            for y in walk(sc):
+                if y.kind not in ("InitListExpr", "CXXConstructExpr", "CXXTemporaryObjectExpr"):
+                    continue
+                lits = [z for z in y.inner if any(w.kind == "StringLiteral" for w in walk(z))]
+                lams = [z for z in y.inner if any(w.kind == "LambdaExpr" for w in walk(z))]
+                if len(y.inner) == 2 and len(lits) >= 1 and len(lams) == 1 and not any(w.kind == "LambdaExpr" for w in walk(y.inner[0])):
+                    tag = next(w.get("value", "").strip('"') for w in walk(y.inner[0]) if w.kind == "StringLiteral")
+                    lam = next(w for w in walk(y.inner[1]) if w.kind == "LambdaExpr")
+                    calls = [self.member_call(w) for w in walk(lam) if w.kind == "CXXMemberCallExpr"]
+                    names = {c[0] for c in calls if c and c[0] in self.methods}
+                    if len(names) == 1:
+                        out.setdefault(tag, names.pop())
+        if len(out) < 2:
+            return None
+        return out, any(y.kind == "CXXThrowExpr" for y in walk(b))
 
     # ------------------------------------------------------------------ widths
     def width_of(self, x: Optional[CNode], env: Dict[str, str], depth: int = 0) -> str:
